@@ -52,6 +52,14 @@ def tasks(tier):
                 out.append({"family": "envelope", "cfg": dict(cfg, script_prefix=[first]),
                             "entry": e, "bound": 1 if tier == "quick" else 2,
                             "weight": 1 if first == "ok" else 5})
+    for D, at, e in itertools.product([3, 4], [1, 2], Q4):
+        cfg = dict(M=3, deadline=D, alphabet=["ok", "x:T", "r:R"], durs=[0, 1, 3, 5], dur_free=True,
+                   strat_menu=[1, 0, 9], strat_free=True, overshoot=[0, 1, 3], over_free=True,
+                   attempt_timeout=at, loop=e.startswith("Async"),
+                   sleeper_async=e.startswith("Async"), max_unknown=None)
+        for first in cfg["alphabet"]:
+            out.append({"family": "envelope-attempt-timeout", "cfg": dict(cfg, script_prefix=[first]),
+                        "entry": e, "bound": 0, "weight": 3})
     return out
 
 
